@@ -165,6 +165,23 @@ uint64_t bignum_to_uint64(bn_t n)
 
 
 
+/* Shift count held by n, saturated to BN_BIT_SIZE (such a shift gives 0) */
+int bignum_to_shift_count(bn_t n)
+{
+	int i;
+
+	for (i = (8 / WORD_SIZE); i < BN_ARRAY_SIZE; ++i) {
+		if (n.array[i]) {
+			return BN_BIT_SIZE;
+		}
+	}
+	if (bignum_to_uint64(n) > BN_BIT_SIZE) {
+		return BN_BIT_SIZE;
+	}
+	return (int)bignum_to_uint64(n);
+}
+
+
 bn_t bignum_from_string(char* str, int nbytes)
 {
 
@@ -452,6 +469,11 @@ bn_t bignum_a_rshift(bn_t a, int size, int nbits)
 
 	bn_t b;
 	bn_t tmp, mask;
+
+	/* Shifting by size or more only leaves the sign */
+	if (nbits > size) {
+		nbits = size;
+	}
 
 	b = bignum_rshift(a, nbits);
 
